@@ -189,7 +189,7 @@ impl TcpSeg {
     }
 
     fn seq_consumed(&self) -> u32 {
-        self.data_len + self.extra_seq
+        self.data_len.wrapping_add(self.extra_seq)
     }
 
     pub fn tcp_hdr_bytes(&self) -> pkt::SliceRef<'_> {
@@ -264,11 +264,11 @@ impl TcpFlow {
     }
 
     fn cl_update(&mut self, bytes: u32) {
-        self.cl_seq += bytes;
+        self.cl_seq = self.cl_seq.wrapping_add(bytes);
     }
 
     fn sv_update(&mut self, bytes: u32) {
-        self.sv_seq += bytes;
+        self.sv_seq = self.sv_seq.wrapping_add(bytes);
     }
 
     fn cl_tx(&mut self, seg: TcpSeg) {
@@ -349,7 +349,7 @@ impl TcpFlow {
         let seg = self.cl().push();
         let hdr = seg.tcp_hdr_bytes();
 
-        self.cl_update(seg.seq_consumed() + dlen);
+        self.cl_update(seg.seq_consumed().wrapping_add(dlen));
 
         hdr.to_vec()
     }
@@ -358,7 +358,7 @@ impl TcpFlow {
         let seg = self.sv().push();
         let hdr = seg.tcp_hdr_bytes();
 
-        self.sv_update(seg.seq_consumed() + dlen);
+        self.sv_update(seg.seq_consumed().wrapping_add(dlen));
 
         hdr.to_vec()
     }
